@@ -367,7 +367,7 @@ func c05Run(b core.Batch, r *core.Recorder) {
 func c05Plan(tier string, seed int64) []core.Batch {
 	rnd := 10
 	if tier == "thorough" {
-		rnd = 400
+		rnd = 1500
 	}
 	var bs []core.Batch
 	for _, be := range []string{"memory", "file"} {
@@ -388,6 +388,6 @@ func init() {
 		Plan:        c05Plan,
 		Run:         c05Run,
 		Parallel:    4,
-		Floors:      map[string]map[string]int64{"quick": {"bursts_with_confirmed_overlap": 100}, "thorough": {"bursts_with_confirmed_overlap": 1500}},
+		Floors:      map[string]map[string]int64{"quick": {"bursts_with_confirmed_overlap": 100}, "thorough": {"bursts_with_confirmed_overlap": 5000}},
 	})
 }
